@@ -57,6 +57,10 @@ void wl_env_swarm(void)
         static const long pg[] = { 4096, 65536, 2097152 };
         env_int("ABT_MEM_PAGE_SIZE", pg[plan_n(3)]);
     }
+    /* a hint only ("the largest rank used"): the runtime raises it when more streams appear,
+     * and callers that are not streams (external threads) were never counted by it */
+    if (plan_n(6) == 0)
+        env_int("ABT_MAX_NUM_XSTREAMS", 1 + (long)plan_n(3));
 }
 
 /* ---- a user-defined FIFO pool (ABT_pool_user_def): the library then keeps the
